@@ -74,6 +74,8 @@ impl Log {
         fields.insert("ev".into(), json!(ev));
         serde_json::to_writer(&mut g.0, &Value::Object(fields)).expect("write");
         g.0.write_all(b"\n").expect("write");
+        // flushed per event: after a process abort the trace still tells which scenario ran
+        let _ = g.0.flush();
         self.lines.fetch_add(1, Ordering::Relaxed);
     }
 
@@ -811,6 +813,13 @@ async fn setup(w: &mut World, scn: &Value) {
             w.raw = Some(conn.clone());
             w.keep.push(Box::new(cep));
             if !manual {
+                // optionally burn bidirectional stream ids so that the session id is not 0:
+                // each burnt stream is reset at once (an empty, silent stream would stall the server)
+                for _ in 0..u(&cfg, "burn_bidi", 0) {
+                    if let Ok(Ok((mut bs, _br))) = timeout(Duration::from_secs(5), conn.open_bi()).await {
+                        let _ = bs.reset(quinn::VarInt::from_u32(0));
+                    }
+                }
                 // control stream + SETTINGS, then the CONNECT request
                 let mut ctrl = conn.open_uni().await.expect("open ctrl");
                 let mut b = vec![0x00];
